@@ -25,6 +25,9 @@ NDP_FIXED = {133: 0, 134: 8, 135: 16, 136: 16, 137: 32}
 
 
 def corpus():
+    import os
+    if os.environ.get("C17_NO_CORPUS"):      # generator measurement only (mutant runs)
+        return []
     return [
         "i4 03040000000005dc4500",
         "i4 0d00000000010002000000030000000400000100",
